@@ -135,8 +135,8 @@ class C20(PropertyCheck):
         cases = []
         utf8 = [s.encode("utf-8") for s in UTF8_NAMES]
         sjis = [s.encode("shift_jis") for s in SJIS_NAMES]
-        nfiles = 36 if not thorough else 180
-        cut_limit = 2048 if not thorough else 5 * 1024
+        nfiles = 36 if not thorough else 360
+        cut_limit = 2048 if not thorough else 6 * 1024
         for kind in KINDS:
             for j in range(nfiles):
                 n = [0, 1, 1, 2, 3, 6][j] if j < 6 else rng.randrange(0, 7)
